@@ -481,6 +481,9 @@ pub fn msg_class(msg: &str) -> String {
 /// Redirect the process's stdout and stderr to /dev/null (the tested code
 /// prints); returns a dup of the original stderr for diagnostics.
 pub fn silence_stdio() -> i32 {
+    if std::env::var_os("P2V_NOSILENCE").is_some() {
+        return 2;
+    }
     unsafe {
         let keep = libc::dup(2);
         let devnull = libc::open(b"/dev/null\0".as_ptr() as *const libc::c_char, libc::O_WRONLY);
@@ -583,13 +586,23 @@ use std::sync::atomic::AtomicI32;
 static CRASH_FD: AtomicI32 = AtomicI32::new(-1);
 
 extern "C" fn crash_handler(sig: libc::c_int) {
+    // async-signal context: no allocation, no locks that may be held
     unsafe {
         let fd = CRASH_FD.load(Ordering::Relaxed);
         if fd >= 0 {
+            let w = |b: &[u8]| {
+                libc::write(fd, b.as_ptr() as *const libc::c_void, b.len());
+            };
+            w(b"signal ");
+            let digits = [b'0' + (sig / 10 % 10) as u8, b'0' + (sig % 10) as u8];
+            w(&digits);
+            w(b"\n");
             if let Ok(c) = CURRENT.try_lock() {
-                let head = format!("signal {}\n{}\n{}\n", sig, c.0, c.1);
-                libc::write(fd, head.as_ptr() as *const libc::c_void, head.len());
-                libc::write(fd, c.2.as_ptr() as *const libc::c_void, c.2.len());
+                w(c.0.as_bytes());
+                w(b"\n");
+                w(c.1.as_bytes());
+                w(b"\n");
+                w(c.2.as_bytes());
             }
         }
         libc::_exit(5);
